@@ -233,7 +233,7 @@ def eval_program(item):
             res["harness"] = f"oracle {st} on {args}: {_}"
             return res
         r = hugrvm.run(h, "main", [hugrvm.to_vm(a) for a in args], step_budget=300000)
-        if r.status in ("unsupported", "invariant", "budget"):
+        if r.status in ("unsupported", "invariant"):
             res["harness"] = f"{r.status}: {r.detail}"
             return res
         res["runs"] += 1
